@@ -203,6 +203,7 @@ def r_instances(tier):
         FORK3 = {"A": ["B"], "B": ["C", "D", "E"], "C": [], "D": [], "E": []}
         for fam in ('simple', 'dist'):
             out.append(('width', 'fork3', FORK3, dict(fam=fam, T=2, ne=False, sym_maxdist=False, sym_init=True, sym_minprob=False), (1, 2)))
+            out.append(('width', 'fork3/false-first', FORK3, dict(fam=fam, T=2, ne=False, sym_maxdist=False, sym_init=True, sym_minprob=False), (1, 2)))
     else:
         for name, g in library(3, named=('fork',)):
             nedge = len([(u, v) for u in g for v in g[u]])
@@ -288,7 +289,10 @@ def width_witness(ctx):
 def run_width(inst):
     from symx import gabs
     _, gname, g, kw, widths = inst[:5]
-    ginst = (f"width {gname} widths={widths}", g, kw, width_ops(kw['T'], widths), {}) + tuple(inst[5:6])
+    opts = {}
+    if gname.endswith('/false-first'):
+        opts['false_first'] = True
+    ginst = (f"width {gname} widths={widths}", g, kw, width_ops(kw['T'], widths), opts) + tuple(inst[5:6])
     return gabs.run(ginst, width_claims, width_witness)
 
 
